@@ -28,6 +28,7 @@ from .. import stub
 
 ID = "C03"
 LEAN_MODULES = ["PyrollProps.C03"]
+ALSO_LOCKS = ["C04"]            # PyrollProps.C03 imports PyrollProps.C04 (generated chain Gen.C04*)
 MODEL = "c03"
 MODEL_MODULES = ["PyrollModel.Gen.C03", "PyrollModel.Gen.C03Groove", "PyrollModel.GrooveWFDriver"]
 RULE = ("for each of the 21 public parametric groove classes x each admissible defining subset (75 combinations; 60 draws each in "
